@@ -135,3 +135,56 @@ theorem dedupFirst_nodup (l : List (List String × Mod)) (seen : List Nat)
     simp
 
 end Quanto
+
+namespace Quanto
+
+theorem namedChildren_head_mem : ∀ (cs : List (String × Mod)) (pm : List String × Mod),
+    pm ∈ namedChildren cs → ∃ n q, pm.1 = n :: q ∧ n ∈ cs.map (·.1)
+  | [], pm, h => by simp [namedChildren] at h
+  | (n, c) :: rest, pm, h => by
+    simp only [namedChildren, List.mem_append, List.mem_map] at h
+    rcases h with ⟨qm, _, rfl⟩ | h
+    · exact ⟨n, qm.1, rfl, by simp⟩
+    · obtain ⟨n', q, hp, hm⟩ := namedChildren_head_mem rest pm h
+      exact ⟨n', q, hp, by simp [hm]⟩
+
+mutual
+/-- no dotted name is yielded twice -/
+theorem named_paths_nodup : ∀ t : Mod, t.namesOk = true → (t.named.map (·.1)).Nodup
+  | .leaf id k q, _ => by simp [Mod.named]
+  | .node id cls cs, h => by
+    have hc : namesOkChildren cs = true := by simpa [Mod.namesOk] using h
+    simp only [Mod.named, List.map_cons, List.nodup_cons]
+    refine ⟨?_, namedChildren_paths_nodup cs hc⟩
+    intro hm
+    obtain ⟨pm, hpm, he⟩ := List.mem_map.mp hm
+    obtain ⟨n, q, hp, _⟩ := namedChildren_head_mem cs pm hpm
+    rw [hp] at he; cases he
+theorem namedChildren_paths_nodup : ∀ cs : List (String × Mod), namesOkChildren cs = true →
+    ((namedChildren cs).map (·.1)).Nodup
+  | [], _ => by simp [namedChildren]
+  | (n, c) :: rest, h => by
+    simp only [namesOkChildren, Bool.and_eq_true, Bool.not_eq_true', List.any_eq_false] at h
+    obtain ⟨⟨hc, hn⟩, hr⟩ := h
+    simp only [namedChildren, List.map_append, List.map_map]
+    rw [List.nodup_append]
+    refine ⟨?_, namedChildren_paths_nodup rest hr, ?_⟩
+    · have := named_paths_nodup c hc
+      have := List.Pairwise.map (S := fun a b : List String => a ≠ b) (fun q : List String => n :: q)
+        (fun a b hab e => hab (by simpa using e)) this
+      simpa [List.Nodup, List.map_map, Function.comp_def] using this
+    · intro p hp1 p' hp2 e
+      subst e
+      obtain ⟨qm, _, hq⟩ := List.mem_map.mp hp1
+      obtain ⟨pm, hpm, he⟩ := List.mem_map.mp hp2
+      obtain ⟨n', q, hp, hmem⟩ := namedChildren_head_mem rest pm hpm
+      simp only [Function.comp_def] at hq
+      rw [hp, ← hq] at he
+      have hnn : n' = n := by injection he
+      obtain ⟨d, hd, hdn⟩ := List.mem_map.mp hmem
+      have := hn d hd
+      simp at this
+      exact this (by rw [hdn, hnn])
+end
+
+end Quanto
